@@ -44,6 +44,7 @@ class Scripted(EvolutionaryOptimizer):
         self.best_key = script[0][0]
         self.evals = 0
         self.calls = []               # generations per _do_evolution
+        self.entry_ms = 0             # clock time the next get_best_fitness() costs (evaluation of the initial population)
         self._diag = EaDiagnostics()
 
     def _do_evolution(self, num_generations):
@@ -62,6 +63,9 @@ class Scripted(EvolutionaryOptimizer):
         return None
 
     def get_best_fitness(self):
+        if self.entry_ms:
+            CLOCK.ms += self.entry_ms
+            self.entry_ms = 0
         return key_to_float(self.best_key)
 
     def get_fitness_evaluation_count(self):
@@ -126,7 +130,8 @@ def gen_cfg(rng):
         "min": rng.choice([0, 0, 0, 1, 3, 8, 20]),
         "stag": rng.choice([None, None, 1, 2, 4]),
         "evals": rng.choice([None, None, 5, 30, 100]),
-        "time": rng.choice([None, None, 1, 3, 10]),    # seconds
+        "time": rng.choice([None, None, 1, 3, 10, 0.25, 1.5, 2.5]),    # seconds (non-integer limits: seed C14-I)
+        "entry_ms": rng.choice([0, 0, 0, 300, 1200, 2700]),            # cost of the first best-fitness query of the call
     }
     return cfg
 
@@ -135,6 +140,7 @@ def one_call(optimizer, cfg):
     age0 = optimizer.generational_age
     calls0 = len(optimizer.calls)
     t0 = CLOCK.ms
+    optimizer.entry_ms = cfg.get("entry_ms", 0)
     with warnings.catch_warnings():
         warnings.simplefilter("ignore")
         res = optimizer.evolve_until_convergence(
@@ -149,7 +155,7 @@ def run(ctx, rep):
     rep.rule = ("random configurations (criteria already met at entry, freq not dividing max, min > max, time limits that shorten rounds, "
                 "NaN bests, stagnation, evaluation budgets) x scripted best/evals/clock sequences x one or two consecutive calls; "
                 "distinct = distinct (configuration, script, call index); non-trivial = at least one evolve round")
-    rep.assumptions = ["the wall clock is non-decreasing and only advances during evolution (fake clock)",
+    rep.assumptions = ["the wall clock is non-decreasing and advances during evolution and at the first best-fitness query of a call (fake clock)",
                        "CheckpointController's float estimate is recorded from the real object, not re-derived"]
     lines, meta = [], []
     with Recorder() as rec:
@@ -215,7 +221,7 @@ def run(ctx, rep):
                 if res.status not in holds or not holds[res.status]:
                     rep.violate(f"status {res.status} names a criterion that does not hold at return", "C14:status-untrue", case)
                 # no further round once a criterion was reached at a check: replay the script independently
-                check_no_extra_round(rep, cfg, script, pre, calls, case, entry_obs)
+                check_no_extra_round(rep, cfg, script, pre, calls, case, entry_obs)   # incl. the hard time limit (clock only advances in evolution)
                 # ---------- correspondence line
                 if ctx.driver_ok:
                     obs = []
@@ -223,8 +229,8 @@ def run(ctx, rep):
                     ests = [e for (_, e) in rec.est]
                     # estimate calls: one at the check between the loops, then one per main-loop round
                     # (get_gens_to_evolve also calls it when a time limit exists) -- align by clock value instead
-                    t = t0
-                    times = [t0]
+                    t = t0 + cfg.get("entry_ms", 0)
+                    times = [t]
                     ev = pre["evals"]
                     evs = [ev]
                     bests = [entry_obs[0]]
@@ -255,7 +261,7 @@ def run(ctx, rep):
                         g = gens_iter[gi] if 0 <= gi < len(gens_iter) else 1
                         obs.append(f"{kstr(bests[k])} {evs[k]} {times[k] - t0} {es} {g}")
                     cfg_s = f"{cfg['max']} {cfg['min']} {cfg['freq']} {kstr(cfg['thr'])} {opt(cfg['stag'])} {opt(cfg['evals'])} " \
-                            f"{opt(None if cfg['time'] is None else cfg['time'] * 1000)}"
+                            f"{opt(None if cfg['time'] is None else int(round(cfg['time'] * 1000)))}"
                     st_s = f"{pre['age']} {pre['improv']} {'None' if pre['best'] is None else kstr(pre['best'])}"
                     lines.append(f"converge ; {cfg_s} ; {st_s} ; " + " ; ".join(obs))
                     want = f"ok {res.status} {res.ngen} {kstr(float_to_key(res.fitness))} {1 if res.success else 0} ; " \
@@ -272,7 +278,8 @@ def run(ctx, rep):
 
 def check_no_extra_round(rep, cfg, script, pre, calls, case, entry_obs):
     """independent replay: after the min-generation phase, a round may start only if no criterion held at the
-    previous check (time/est criteria are not re-derived here: only threshold, stagnation, budget, max generations)"""
+    previous check (threshold, stagnation, budget, max generations and the hard time limit; the pre-emptive estimate criterion is
+    not re-derived here)"""
     thr = key_to_float(cfg["thr"])
     age = pre["age"]
     best = entry_obs[0]
@@ -289,11 +296,13 @@ def check_no_extra_round(rep, cfg, script, pre, calls, case, entry_obs):
     ev = pre["evals"]
     rr = pre["round"]
     ngen = 0
+    elapsed_ms = cfg.get("entry_ms", 0)   # since the start of this call; the fake clock advances at the entry query and in _do_evolution
     for idx, g in enumerate(calls):
         # before starting round idx (past the min phase) no hard criterion may hold
         if ngen >= cfg["min"]:
             hit = (key_to_float(last_best) <= thr) or (cfg["stag"] is not None and age - improv >= cfg["stag"]) \
-                or (cfg["evals"] is not None and ev >= cfg["evals"]) or ngen >= cfg["max"]
+                or (cfg["evals"] is not None and ev >= cfg["evals"]) or ngen >= cfg["max"] \
+                or (cfg["time"] is not None and elapsed_ms >= cfg["time"] * 1000)
             if hit:
                 rep.violate(f"round {idx} was started although a stopping criterion held at the preceding check "
                             f"(ngen={ngen}, best={last_best}, evals={ev})", "C14:extra-round", case)
@@ -303,6 +312,7 @@ def check_no_extra_round(rep, cfg, script, pre, calls, case, entry_obs):
         age += g
         ngen += g
         ev += de
+        elapsed_ms += dt * g
         upd(b)
 
 
